@@ -143,7 +143,7 @@ def run(tier: str, seed: int) -> Report:
     # the composed TLA+ model: end-to-end invariants, and the two reachable "design facts" as witnesses
     for c, want in (("nolate", None), ("late_abc", None), ("late_aba", None),
                     ("stale_mismatch", "NoStaleMismatch"), ("stale_accept", "NoStaleAccept")):
-        res = tlc.run_tlc("MC_System", f"MC_System_{c}.cfg", workers=2, timeout=600)
+        res = tlc.run_tlc("MC_System", f"MC_System_{c}.cfg", workers=1 if want else 2, timeout=600)
         rep.add_tlc(res, f"MC_System_{c}" + (" (witness: a late answer hits the next request)" if want else ""))
         if res.violated != want:
             if want:
